@@ -17,5 +17,20 @@ for k in range(4):
         H(f"c10_parse_file_k{k:02d}", functions=[F + "parse", F + "next"], clauses=["one file: name, filename, media type and content byte-exact (CR, LF, NUL, high bytes); next() yields it under its name, then None"],
           bound=f"template with one file part, content = {k} symbolic bytes (no '-')", **B),
     ]
+# only the k00 templates (EMPTY content) are decided by CBMC within the time limit: the others stay in the thorough tier as attempts
+for h in HARNESSES:
+    if not h.name.endswith("_k00"):
+        h.tier = "thorough"
+G = dict(crate="ohkami_lib", strength="bounded", tier="quick", timeout=900)
+P = "serde_multipart::parse::"
+HARNESSES += [H(f"c10_files_in_order_k{k:02d}", functions=[F + "next", P + "DeserializeFilesOrField::next_element_seed", P + "TextOrFiles::into_deserializer", "serde_multipart::file::FileDeserializer (MapAccess)"],
+                clauses=["the files submitted under one name are grouped under it and handed to the target in submission order, each with its own filename, media type and byte-exact content; nothing beyond them; the text field stays text"],
+                bound=f"a text field followed by {k + 1} file(s) under one name; 1-byte symbolic filenames and contents", **G) for k in range(4)]
+HARNESSES += [H(f"c10_shape_fit_k{k:02d}", functions=[P + "DeserializeFilesOrField::deserialize_option", P + "DeserializeFilesOrField::deserialize_map", P + "DeserializeFilesOrField::deserialize_str", F + "next"],
+                clauses=["Option<File>: None for an empty file input, Some(the file) for one, error for several", "File: the file for exactly one, error otherwise", "file part into a text target and text field into a file target: error, never a wrong value"],
+                bound=f"{['an empty file input', 'one file', 'two files'][k]} (symbolic 1-byte filename / content)", **G) for k in range(3)]
+HARNESSES += [H("c10_parse_three_files_template", functions=[F + "parse"], clauses=["parts are kept in submission order (a text field and three files under one name)"],
+                bound="ONE concrete conforming body (no symbolic byte): a symbolic execution of the real parser, not a quantified statement",
+                crate="ohkami_lib", strength="bounded", tier="quick", timeout=900, expect_covers=False)]
 TRUSTED = ["byte_reader 3.1.1 executed symbolically, not specified", "ASSUMED CONTRACT: core::str::from_utf8 (spec/utf8.rs)"]
-ASSUMPTIONS = ["fixed boundary `b`, fixed names; forms of one part only; several files under one name, optional part headers, from_bytes::<T> through serde-derived impls and the File/Vec<File>/Option<File> shape errors are NOT under a discharged contract"]
+ASSUMPTIONS = ["fixed boundary `b`, fixed names; forms of one part only; parser templates with non-empty symbolic content are not decided by CBMC within the limit (thorough tier, attempts); the struct-level glue of from_bytes::<T> (serde-derived field dispatch of the target struct) is NOT under a discharged contract; File's own derived Deserialize is executed"]
